@@ -19,6 +19,7 @@ import (
 	"github.com/lab5e/lospan/pkg/lg"
 	"github.com/lab5e/lospan/pkg/protocol"
 	"github.com/lab5e/lospan/pkg/server"
+	"github.com/lab5e/lospan/pkg/verifgate"
 )
 
 // MACProcessor is the process responsible for processing the MAC commands.
@@ -65,12 +66,15 @@ func processMACCommand(cmd protocol.MACCommand) {
 func (m *MACProcessor) Start() {
 	for v := range m.input {
 		go func(val server.LoRaMessage) {
+			verifgate.Gate("enter:mac")
+			defer verifgate.Gate("exit:mac")
 			for _, cmd := range val.Payload.MACPayload.MACCommands.List() {
 				processMACCommand(cmd)
 			}
 			for _, cmd := range val.Payload.MACPayload.FHDR.FOpts.List() {
 				processMACCommand(cmd)
 			}
+			verifgate.Gate("handoff:notify")
 			m.notifier <- val
 		}(v)
 	}
